@@ -15,7 +15,7 @@ from ._pipes import PipeScenario, JoinScenario, flat, needs_clock, parse
 MOD = __name__
 
 PASS_THROUGH = ("map", "filter", "flatten", "flatten2", "pluck", "accumulate", "accumulate_nostart", "unique", "slice", "sliding_window",
-                "starmap", "union", "partition_unique")
+                "starmap", "union", "partition_unique", "accumulate_ws", "accumulate_ws_nostart", "pluck_list", "unique_list", "stream")
 BUFFERING = ("buffer", "delay", "latest", "collect", "timed_window", "timed_window_unique", "map_async", "map_async_eager", "map_async_raisecall")
 # (rate_limit is not one of them: its update() sleeps and then awaits its consumer, so an emit through it covers the consumer)
 
@@ -317,7 +317,7 @@ def factory(key):
 
 PLAIN = ["", "map", "filter", "flatten", "flatten2", "pluck", "accumulate", "accumulate_nostart", "unique", "slice",
          "sliding_window:1", "sliding_window:2", "partition:2", "starmap", "union", "partition_unique:1:ident:first",
-         "partition_unique:2:ident:last"]
+         "partition_unique:2:ident:last", "accumulate_ws", "accumulate_ws_nostart", "pluck_list", "unique_list", "stream"]
 
 
 def plan(ctx):
@@ -340,6 +340,8 @@ def plan(ctx):
         jobs.append((("zip", n, "future", "await", n + 2, 1), 2 if T else 1))
         jobs.append((("zip", n, "native", "await", n + 1, n + 1), 1))
         jobs.append((("zip", n, "future", "burst", n + 2, 1), 1))
+    for nd in ("", "map", "buffer:1", "sliding_window:2"):
+        jobs.append((("chain", nd, "custom", "await", 3, 1), 1))     # the consumer's own awaitable type
     for mode in ("await", "burst"):
         jobs.append((("chain", "map_async_raisecall:1", "future", mode, 3, 1), 1))
         jobs.append((("chain", "map_async_raisecall:2", "sync", mode, 4, 1), 1 if T else 0))
